@@ -45,7 +45,22 @@ pub struct Level {
 pub struct Skeleton {
     pub levels: Vec<Level>,
     pub names: usize,
+    /// how a read of a name is spelled (index into REF_STYLES); 0 = the bare name
+    pub ref_style: usize,
 }
+
+/// Spellings of a variable reference: the free-variable analysis has separate code for
+/// quasiquote templates (element, dotted tail, vector), for operator-position lambdas
+/// (`let`) and for nested thunks. `@` stands for the name.
+pub const REF_STYLES: [&str; 7] = [
+    "@",
+    "(car `(,@))",
+    "(cdr `(0 . ,@))",
+    "(vector-ref `#(,@) 0)",
+    "(let ((c02-t @)) c02-t)",
+    "((lambda () @))",
+    "(cond (#f 0) (else @))",
+];
 
 pub struct Bounds {
     pub max_levels: usize,
@@ -95,7 +110,15 @@ pub fn decode(choose: &mut dyn FnMut(usize) -> usize, b: &Bounds) -> Skeleton {
         }
         levels.push(Level { modes, actions });
     }
-    Skeleton { levels, names: b.names }
+    Skeleton { levels, names: b.names, ref_style: 0 }
+}
+
+/// `decode` preceded by the choice of a reference spelling among the first `styles`.
+pub fn decode_styled(choose: &mut dyn FnMut(usize) -> usize, b: &Bounds, styles: usize) -> Skeleton {
+    let style = choose(styles.min(REF_STYLES.len()).max(1));
+    let mut sk = decode(choose, b);
+    sk.ref_style = style;
+    sk
 }
 
 fn s(x: &str) -> Sx {
@@ -121,6 +144,15 @@ impl Skeleton {
     }
 
     pub fn id(&self) -> String {
+        let base = self.shape_id();
+        if self.ref_style == 0 {
+            base
+        } else {
+            format!("{}|reads-as:{}", base, REF_STYLES[self.ref_style % REF_STYLES.len()])
+        }
+    }
+
+    fn shape_id(&self) -> String {
         self.levels
             .iter()
             .map(|l| {
@@ -149,10 +181,19 @@ impl Skeleton {
             .join("/")
     }
 
+    fn reference(&self, name: &str) -> Sx {
+        if self.ref_style == 0 {
+            return s(name);
+        }
+        // `,@` in the table would read as unquote-splicing: substitute before reading
+        let text = REF_STYLES[self.ref_style % REF_STYLES.len()].replace(",@", &format!(", {}", name)).replace('@', name);
+        crate::sx::read(&text).expect("reference style parses")
+    }
+
     fn reads(&self, lvl: usize, when: &str, which: &dyn Fn(Action) -> bool) -> Vec<Sx> {
         (0..self.names)
             .filter(|n| lvl >= self.levels.len() || which(self.levels[lvl].actions[*n]))
-            .map(|n| call("probe", vec![q(&format!("L{}-{}-{}", lvl, when, NAMES[n])), s(NAMES[n])]))
+            .map(|n| call("probe", vec![q(&format!("L{}-{}-{}", lvl, when, NAMES[n])), self.reference(NAMES[n])]))
             .collect()
     }
 
